@@ -1036,7 +1036,7 @@ func reflectSame(a, b pipe) bool { return a.String() == b.String() }
 
 func TestCheckQueries(t *testing.T) {
 	s := harness.NewSub("typed-programs-vs-reference",
-		"well-typed programs from the documented grammar (0..2 variable definitions, main pipeline of up to 6 stages: accessor chains over Document/Individual/Family/Husband/Wife/Child/Name/Date/Date value/Sex/plain nodes - nil-unsafe accessors are never applied to nullable values -, First/Last with arguments 0..7, Length, Only with a comparison, NodesWithTagPath, objects, Combine, all six operators over accessor and constant operands incl. '10' vs '9', '1.230', ' JOHN ') on random family graphs; engine result vs reference interpreter as normalised JSON, determinism, a returned result stays what it was while a companion query (the same program over the first and last element of one of its lists) is evaluated, a quarter of the cases again after 1..2 edits of the queried document through the public API (vs the same text decoded from nothing), and metamorphic relations (variable inlining, Length, Combine(E,E), First/Last length and partition for k in {0,1,n-1,n,n+1}); non-trivial = non-empty list or object result and a main pipeline of >= 3 stages")
+		"well-typed programs from the documented grammar (0..2 variable definitions, main pipeline of up to 6 stages: accessor chains over Document/Individual/Family/Husband/Wife/Child/Name/Date/Date value/Sex/plain nodes - nil-unsafe accessors are never applied to nullable values -, First/Last with arguments 0..7, Length, Only with a comparison, NodesWithTagPath, objects, Combine, all six operators over accessor and constant operands incl. '10' vs '9', '1.230', ' JOHN ') on random family graphs (<= 6 people; one in 60 with 25..300); engine result vs reference interpreter as normalised JSON, determinism, a returned result stays what it was while a companion query (the same program over the first and last element of one of its lists) is evaluated, a quarter of the cases again after 1..2 edits of the queried document through the public API (vs the same text decoded from nothing), and metamorphic relations (variable inlining, Length, Combine(E,E), First/Last length and partition for k in {0,1,n-1,n,n+1}); non-trivial = non-empty list or object result and a main pipeline of >= 3 stages")
 	s.Rapid(t, harness.Share(harness.Pick(60000, 1200000)), 160, func(rt *rapid.T) {
 		c := queryCase{
 			Doc:     gen.Graph(gen.GraphOpts{MaxPeople: 6, MaxFamilies: 3, WildDates: true, UIDs: true, Big: 60, BigLo: 25, BigHi: 300}).Draw(rt, "doc"),
